@@ -81,6 +81,9 @@ func runC08(tier, replay string) {
 			continue
 		}
 		r.Seen("stacks", stack)
+		if only < 0 {
+			repeatedPartScenario(ctx, r, s, stack)
+		}
 		for round := 0; round < rounds; round++ {
 			if only >= 0 && round != only {
 				continue
